@@ -164,7 +164,8 @@ pub fn run_c09(ctx: &Ctx, sink: &mut Sink) {
             toks.push("o".into());
             toks.push(format!("lit:{}", hex(b"F\n")));
             let n_script = rng.below(12);
-            let script: Vec<u32> = (0..n_script).map(|_| *rng.pick(&[0u32, 0, 1, 2, 255])).collect();
+            // 1000+N: the command kills itself with signal N (no exit code at all: not a success)
+            let script: Vec<u32> = (0..n_script).map(|_| *rng.pick(&[0u32, 0, 1, 2, 255, 1009, 1015])).collect();
             let roots = pick_exec_roots(&mut rng, &sc);
             let roots: Vec<(Vec<u8>, String)> = roots.into_iter().filter(|(_, w)| !w.ends_with("=missing")).collect();
             if roots.is_empty() { continue; }
@@ -320,7 +321,7 @@ pub fn run_c08(ctx: &Ctx, sink: &mut Sink) {
                 _ => {}
             }
             let n_script = rng.below(6);
-            let script: Vec<u32> = (0..n_script).map(|_| *rng.pick(&[0u32, 0, 0, 1, 3])).collect();
+            let script: Vec<u32> = (0..n_script).map(|_| *rng.pick(&[0u32, 0, 0, 1, 3, 1009])).collect();
             let roots = pick_exec_roots(&mut rng, &sc);
             let (req, imp) = run_exec_case(ctx, &sc, "P", &roots, &ExecCase { toks: toks.clone(), script }, &mut rng);
             let mut tags = vec!["multi", "nt"];
